@@ -102,7 +102,7 @@ def gen(rng):
         argv = ['trash-restore', '--sort=path', '/']
         spec = {'argv': argv, 'env': env, 'cwd': '/', 'uid': uid, 'stdin': ','.join(map(str, sel)) + '\n'}
     elif cmd == 'trash-empty':
-        argv = ['trash-empty'] + rng.choice([[], [], ['1'], ['4000'], ['-v']])
+        argv = ['trash-empty'] + rng.choice([[], [], ['1'], ['4000'], ['-v'], ['-vv']])
         spec = {'argv': argv, 'env': env, 'cwd': '/', 'uid': uid}
     else:
         argv = ['trash-rm', rng.choice(['*', 'ent*', 'ent[0-1]', 'ent0'])]
